@@ -60,7 +60,10 @@ def run_neutral(args):
         if r.returncode != 0:
             return nid, {"patch": "does not apply (the tree moved on): " + (r.stdout + r.stderr)[-200:]}, True
         env = dict(os.environ, GMG_REPO=scratch, GMG_EVIDENCE_SCRATCH="1")
+        only = os.environ.get("GMG_ONLY_CHECKS", "").split()
         for c in meta["checks"]:
+            if only and c not in only:
+                continue
             try:
                 r = subprocess.run([os.path.join(VERIF, "check"), c, "--tier", tier], env=env, capture_output=True, text=True, timeout=3600)
                 res[c] = r.returncode
